@@ -4,7 +4,11 @@ HOOK_COMMITS = ["39c5112", "584a771"]
 ENGINES = [
     {"name": "KM", "path": "/verif/kani-km + /verif/hbmodel",
      "serves_properties": ["C01", "C02", "C03", "C04", "C05", "C06", "C07", "C08", "C09", "C10", "C11", "C12", "C13", "C14", "C16", "C17"],
-     "kind_free_text": "Kani 0.68 compiles griddle (unchanged, /repo working tree) against a contract model of hashbrown's raw API; CBMC 6.11/CaDiCaL decides one-step inductive harnesses from arbitrary INV states (concrete table layouts, symbolic contents/arguments/callback decisions)"},
+     "kind_free_text": "Kani 0.68 compiles griddle (unchanged, /repo working tree) against a contract model of hashbrown's raw API; CBMC 6.11/CaDiCaL decides one-step inductive, traversal and counters harnesses from arbitrary INV states (concrete table layouts; symbolic contents, arguments, callback decisions; 64-bit symbolic sizes in counters mode)"},
+    {"name": "KV-lite", "path": "/verif/kani-kv", "serves_properties": ["C05"],
+     "kind_free_text": "Kani/CBMC on the REAL hashbrown 0.14.5 (portable group): the facts the model's iterator rests on (reflect_remove-before-remove keeps the iterator exact, reflect_insert is not its inverse, replace_bucket_with restores the bucket, small-table sizing)"},
+    {"name": "KR-lite", "path": "/verif/kani-kr", "serves_properties": ["C05"],
+     "kind_free_text": "Kani/CBMC on griddle + the REAL hashbrown: concrete 8-insert prefix at R = 4 (mid-resize), one call with a symbolic key, consistency of get/iter/len/cached iterator afterwards; thorough tier"},
 ]
 
 NOTES = ("Exit codes: 0 held on everything explored; 1 VIOLATION (solver counterexample replayed natively through "
@@ -34,7 +38,7 @@ CHECKS = {
         technique="SAT-based bounded model checking (Kani/CBMC); inductive invariant over unconstrained 64-bit counters"),
     "C05": dict(
         text="Unsafe preconditions of hashbrown's raw API are ghost assertions in the model (iterator over-read, stale cached group, reflect_remove after the removal / for a non-pending bucket / on a zero-sized type, foreign or non-full bucket, insert_no_grow without room, use after free via CBMC's pointer checks) and cursor agreement I2 is asserted after every call that can touch the old table, for all contents; both with and without debug assertions.",
-        design_ref="DESIGN.md §5 C05", note=_KM_NOTE + " Real hashbrown's own unsafe code is not executed by KM.",
+        design_ref="DESIGN.md §5 C05", note=_KM_NOTE + " Real hashbrown's own unsafe code is executed only by the KV-lite facts (quick) and the KR-lite scenarios (thorough).",
         technique="SAT-based bounded model checking (Kani/CBMC) with contract (ghost) assertions and CBMC pointer checks"),
     "C07": dict(
         text="PARTIAL: Kani has no unwinding, so a caught panic cannot be executed. Decided instead: at the instant a replace_entry_with closure runs inside a griddle frame (crash point = that instant), the map already satisfies INV minus the element in flight, for all contents and layouts; griddle has no drop guard on that path, so this is the state catch_unwind leaves. Covered callbacks: replace_entry_with (raw and occupied handles), retain (symbolic crash index), drain_filter (enumerated), or_insert_with, and_modify, and Hash invoked from insert/carry (enumerated crash index). Not covered: Eq, Clone, Drop panics and anything that needs real unwinding through hashbrown frames.",
